@@ -36,15 +36,15 @@ add("names_cu_12", ["C01", "C02", "C18"], timeout=600, est=20, path="registry::h
 
 
 # ---------------------------------------------------------------- C03 leaf readers
-add("names_readers_5", ["C03"], tier="thorough", timeout=3600, est=1000, mem_gb=24, path="registry::h_c03_t::proofs::",
+add("names_readers_5", ["C03"], tier="thorough", timeout=1800, est=1000, mem_gb=24, path="registry::h_c03_t::proofs::",
     funcs=["Compress::check_compressed_name", "RRIterator::skip_name", "Compress::copy_uncompressed_name", "Compress::raw_name_len_after_decompression", "Compress::raw_name_len", "Compress::raw_name_to_str"],
     bound="the trusted name readers on every name the validator accepts in every buffer of length <= 5 (all bytes, length, offset symbolic); unwind 8",
     assume=["names the validator rejects are not explored further (the readers are only ever called on validated names)"])
-add("names_readers_6", ["C03"], tier="thorough", timeout=5400, est=2000, mem_gb=24, path="registry::h_c03_t::proofs::",
+add("names_readers_6", ["C03"], tier="thorough", timeout=1800, est=2000, mem_gb=24, path="registry::h_c03_t::proofs::",
     funcs=["Compress::check_compressed_name", "RRIterator::skip_name", "Compress::copy_uncompressed_name", "Compress::raw_name_len_after_decompression", "Compress::raw_name_len", "Compress::raw_name_to_str"],
     bound="the trusted name readers on every name the validator accepts in every buffer of length <= 6 (all bytes, length, offset symbolic); unwind 9",
     assume=["names the validator rejects are not explored further (the readers are only ever called on validated names)"])
-add("names_readers_8", ["C03"], tier="thorough", timeout=5400, est=2000, mem_gb=32, path="registry::h_c03_t::proofs::",
+add("names_readers_8", ["C03"], tier="thorough", timeout=1800, est=2000, mem_gb=32, path="registry::h_c03_t::proofs::",
     funcs=["Compress::check_compressed_name", "RRIterator::skip_name", "Compress::copy_uncompressed_name", "Compress::raw_name_len_after_decompression", "Compress::raw_name_len", "Compress::raw_name_to_str"],
     bound="the trusted name readers on every name the validator accepts in every buffer of length <= 8; unwind 11",
     assume=["names the validator rejects are not explored further"])
